@@ -14,6 +14,8 @@ from harness import common, gen  # noqa: E402
 sys.path.insert(0, common.REPO)
 os.environ.setdefault('PYTHONHASHSEED', '0')
 sys.dont_write_bytecode = True
+import logging  # noqa: E402
+logging.disable(logging.CRITICAL)   # the library logs every malformed frame
 
 
 def main():
